@@ -167,6 +167,14 @@ theorem compare_nat_lt (a b : Nat) : compare a b = .lt ↔ a < b := Nat.compare_
 theorem compare_int_eq (a b : Int) : compare a b = .eq ↔ a = b := Int.compare_eq_eq
 theorem compare_nat_eq (a b : Nat) : compare a b = .eq ↔ a = b := Nat.compare_eq_eq
 
+/-- natural-number keys (denoms, validators) -/
+def natKeyOrder : KeyOrder Nat where
+  lt a b := a < b
+  irrefl a h := by omega
+  trans a b c h1 h2 := by omega
+  cmp_lt a b := compare_nat_lt a b
+  total a b hne hn := by omega
+
 /-- keys of the unbonding queue: (completion time, delegator), ordered as the store orders its byte keys -/
 def undelKeyOrder : KeyOrder (Int × Nat) where
   lt p q := p.1 < q.1 ∨ (p.1 = q.1 ∧ p.2 < q.2)
